@@ -14,6 +14,42 @@ BITS = {'u8': 8, 'i8': 8, 'u16': 16, 'i16': 16, 'u32': 32, 'i32': 32, 'u64': 64,
 NARROW = {'u8': 8, 'u16': 16, 'bool': 1, 'u32': 32}
 
 
+ADAPTERS = ('map', 'for_each', 'fold', 'filter', 'filter_map', 'all', 'any', 'try_for_each', 'try_fold', 'find', 'position', 'flat_map', 'inspect', 'take_while', 'skip_while', 'scan')
+_ctx_cache = {}
+
+
+def closure_context(body):
+    """for a closure that is the callback of an iterator adapter: (parent body, the closure aggregate, the adapter call,
+    whether the adapted iterator is an `enumerate()`), else None.  A panic-capable site inside such a closure is the same
+    site as in the loop the adapter replaces; its operands are described the way the loop form describes them."""
+    if body.kind != 'Closure':
+        return None
+    key = id(body)
+    if key in _ctx_cache:
+        return _ctx_cache[key]
+    P = body.prog
+    res = None
+    idx = P.__dict__.get('_closure_homes')
+    if idx is None:
+        idx = {}
+        for b in P.all_bodies():
+            for i, st in b.assigns():
+                rv = st['rv']
+                if rv['r'] == 'agg' and 'closure' in rv:
+                    idx.setdefault(norm(rv['closure']), []).append((b, st))
+        P.__dict__['_closure_homes'] = idx
+    homes = [h for h in idx.get(body.path, []) if h[0] is not body]
+    if len(homes) == 1:
+        pb, st = homes[0]
+        user = [cs for cs in pb.calls() if any(q.sem(pb, a).kind == 'agg' and q.sem(pb, a).extra is st['rv'] for a in cs.args[1:])]
+        if len(user) == 1 and (user[0].declared or '').startswith('core::iter::traits::iterator::Iterator::') and user[0].declared.rsplit('::', 1)[-1] in ADAPTERS:
+            cl = pb.op_closure(user[0].args[0])
+            enum_ = any(y[0] == 'call' and y[1] == 'core::iter::traits::iterator::Iterator::enumerate' for y in cl)
+            res = (pb, st, user[0], enum_)
+    _ctx_cache[key] = res
+    return res
+
+
 def operand_sig(body, o, depth=0):
     """stable textual description of an operand: user names and field paths, constants, call results"""
     if o is None:
@@ -30,6 +66,22 @@ def operand_sig(body, o, depth=0):
 def sem_sig(body, s, depth=0):
     if depth > 4:
         return '..'
+    if s.kind == 'place' and body.kind == 'Closure' and depth < 4:
+        ctx = closure_context(body)
+        if ctx is not None:
+            pb, st, user, enum_ = ctx
+            pr = [p for p in s.proj if p != 'deref']
+            if s.local == 1 and pr and pr[0].startswith('field:'):
+                # a captured variable: described as the value it captures in the enclosing function
+                i = int(pr[0].split(':')[1])
+                if i < len(st['rv']['a']):
+                    ps = q.sem(pb, st['rv']['a'][i])
+                    ps = q.Sem(ps.kind, ps.cs, ps.local, tuple(ps.proj) + tuple(pr[1:]), ps.const, ps.extra, ps.checked)
+                    return sem_sig(pb, ps, depth + 1)
+            item = 3 if user.declared.endswith('::fold') or user.declared.endswith('::try_fold') else 2
+            if enum_ and s.local == item and pr and pr[0].startswith('field:0:'):
+                # the index an enumerate() hands to the callback == `.next()?.0` of the loop form
+                return 'Iterator>::next().' + ''.join('.' + p.split(':')[-1] for p in pr[1:] if p.startswith('field:'))
     if s.kind == 'place':
         txt = body.place_str({'l': s.local, 'p': [p for p in s.proj if not p.startswith('<')]})
         return re.sub(r'#\d+', '', txt)
@@ -163,6 +215,10 @@ class Site:
         self.body, self.kind, self.op, self.ops, self.line, self.mac, self.block, self.cs = body, kind, op, ops, line, mac, block, cs
         self.cond = cond
         self.fn = re.sub(r'::\{promoted#\d+\}$', '', body.path)
+        ctx = closure_context(body)
+        if ctx is not None:
+            # the callback of an iterator adapter belongs to the function that drives the iterator
+            self.fn = body.prog.logical_name(ctx[0])
         self.sig = '%s(%s)' % (op, ', '.join(operand_sig(body, o) for o in ops)) if ops else op
         self.key = '%s | %s | %s' % (self.fn, kind, self.sig)
         self.discharge = None
